@@ -167,7 +167,7 @@ func checkManifest(r *core.Run, files map[string][]byte, outPath string, where s
 			r.Fail("duplicate-path", "manifest", "%s: path %q is listed twice", where, e.Path)
 		}
 		if seenD[d] {
-			r.Fail("duplicate-digest", "manifest", "%s: digest %s... is listed twice", where, d[:12])
+			r.Fail("duplicate-digest", "manifest", "%s: digest %s... is listed twice", where, core.Short(d, 12))
 		}
 		seenP[e.Path], seenD[d] = true, true
 		entries = append(entries, manifestEntry{d, e.Path})
@@ -187,10 +187,17 @@ func checkManifest(r *core.Run, files map[string][]byte, outPath string, where s
 			continue
 		}
 		if !bytes.Equal(g.GetDigest(), e.Digest) {
-			r.Fail("dangling-or-mismatched-entry", "digest-mismatch", "%s: entry %q lists digest %s... but the file's signed digest is %x...", where, e.Path, d[:12], g.GetDigest()[:6])
+			r.Fail("dangling-or-mismatched-entry", "digest-mismatch", "%s: entry %q lists digest %s... but the file's signed digest is %x...", where, e.Path, core.Short(d, 12), prefixOf(g.GetDigest(), 6))
 		}
 	}
 	return entries, true
+}
+
+func prefixOf(b []byte, n int) []byte {
+	if len(b) < n {
+		return b
+	}
+	return b[:n]
 }
 
 func stateOf(entries []manifestEntry, pool []*images.Image) string {
